@@ -552,6 +552,9 @@ def mangle(js, seed):
         if k == "n_qubits":
             d[k] = rr.choice([0, -1, -3, 1, 9]); return "width"
         if k == "name":
+            if rr.random() < 0.15:
+                # a name that is not a str: globals()[name] is a KeyError for a hashable one, a TypeError for a list
+                d[k] = rr.choice([5, None, 2.5, True, ["X"]]); return "rename-nonstr"
             d[k] = rr.choice(["Nope", "X", "RX", "Control", "Exponential", "Nope_Dagger", "X^2", "Union", "T", d[k] + "_Dagger", d[k] + "^3"])
             return "rename"
         if k == "gate_name":
